@@ -75,7 +75,7 @@ def check_target(ctx, name, f, k, gen, tol, problems, shapes=SHAPES, nan_ok=True
         except Exception as e:  # noqa
             problems.append((f"{name}: raised {type(e).__name__}: {str(e)[:120]} for input shape {shape}", {"target": name, "shape": shape}, None))
             continue
-        ctx.case(key=(name, shape), nontrivial=len(shape) >= 2, kind=f"{name.split('/')[0]}", sample={"target": name, "shape": list(shape)})
+        ctx.case(key=(name, shape, tuple(np.asarray(a, dtype=float).ravel()[:3].tolist() for a in flat)), nontrivial=len(shape) >= 2, kind=f"{name.split('/')[0]}", sample={"target": name, "shape": list(shape)})
         # shape preservation
         bad_shape = [np.shape(o) for o in out if np.shape(o) != tuple(shape)]
         if bad_shape:
@@ -194,70 +194,71 @@ def run(ctx):
     # ---- batch-vs-element oracle -------------------------------------------------------------
     rng = ctx.rng
     problems = []
-    for name, m, k, gen, exact in model_targets(rng):
-        check_target(ctx, "model/" + name, m, k, gen, 1e-13, problems)
-    fams = families.all_families(rng)
-    for fam in fams:
-        if fam.name.startswith("cube3d_fixed"):
-            continue
-        w = fam.w
+    for rep_ in range(1 if ctx.quick else 6):        # thorough: six independent draws of models, families and batches
+        for name, m, k, gen, exact in model_targets(rng):
+            check_target(ctx, "model/" + name, m, k, gen, 1e-13, problems)
+        fams = families.all_families(rng)
+        for fam in fams:
+            if fam.name.startswith("cube3d_fixed"):
+                continue
+            w = fam.w
 
-        def gen_pix(n, fam=fam):
-            pts = [families.random_point(rng, fam) for _ in range(n)]
-            return [np.array([p[i] for p in pts]) for i in range(fam.n_in)]
-        fwd = w.pixel_to_world_values if fam.units else (lambda *a, w=w: w(*a))
-        check_target(ctx, f"forward/{fam.name}", fwd, fam.n_in, gen_pix, 1e-12, problems)
-        check_target(ctx, f"pixel_to_world_values/{fam.name}", w.pixel_to_world_values, fam.n_in, gen_pix, 1e-12, problems,
-                     shapes=[(), (4,), (2, 2)])
-        check_target(ctx, f"array_index_to_world_values/{fam.name}", w.array_index_to_world_values, fam.n_in, gen_pix, 1e-12, problems,
-                     shapes=[(), (2, 2)])
-        if not fam.analytic_inverse:
-            continue
+            def gen_pix(n, fam=fam):
+                pts = [families.random_point(rng, fam) for _ in range(n)]
+                return [np.array([p[i] for p in pts]) for i in range(fam.n_in)]
+            fwd = w.pixel_to_world_values if fam.units else (lambda *a, w=w: w(*a))
+            check_target(ctx, f"forward/{fam.name}", fwd, fam.n_in, gen_pix, 1e-12, problems)
+            check_target(ctx, f"pixel_to_world_values/{fam.name}", w.pixel_to_world_values, fam.n_in, gen_pix, 1e-12, problems,
+                         shapes=[(), (4,), (2, 2)])
+            check_target(ctx, f"array_index_to_world_values/{fam.name}", w.array_index_to_world_values, fam.n_in, gen_pix, 1e-12, problems,
+                         shapes=[(), (2, 2)])
+            if not fam.analytic_inverse:
+                continue
 
-        def gen_world(n, fam=fam, w=w):
-            cols = gen_pix(n)
-            out = as_tuple(w.pixel_to_world_values(*cols))
-            return [np.asarray(o, dtype=float) for o in out]
-        inv = w.world_to_pixel_values
-        check_target(ctx, f"world_to_pixel_values/{fam.name}", inv, fam.n_out, gen_world, 1e-9, problems, shapes=[(), (1,), (5,), (2, 3)])
-        check_target(ctx, f"world_to_array_index_values/{fam.name}", w.world_to_array_index_values, fam.n_out, gen_world, 1e-9, problems,
-                     shapes=[(), (2, 2)])
-        if not fam.units and not isinstance(w.pipeline[0].frame, str):
-            check_target(ctx, f"invert/{fam.name}", (lambda *a, w=w: w.invert(*a)), fam.n_out, gen_world, 1e-9, problems,
-                         shapes=[(), (5,), (2, 1, 3)])
-            check_target(ctx, f"in_image/{fam.name}", (lambda *a, w=w: w.in_image(*a)), fam.n_out, gen_world, 0, problems,
-                         shapes=[(), (5,), (2, 3)])
-    # iterative inverse, incl. a NaN in the batch
-    f = families.imaging(rng, distortion=True, box=True)
-    w = f.w
+            def gen_world(n, fam=fam, w=w):
+                cols = gen_pix(n)
+                out = as_tuple(w.pixel_to_world_values(*cols))
+                return [np.asarray(o, dtype=float) for o in out]
+            inv = w.world_to_pixel_values
+            check_target(ctx, f"world_to_pixel_values/{fam.name}", inv, fam.n_out, gen_world, 1e-9, problems, shapes=[(), (1,), (5,), (2, 3)])
+            check_target(ctx, f"world_to_array_index_values/{fam.name}", w.world_to_array_index_values, fam.n_out, gen_world, 1e-9, problems,
+                         shapes=[(), (2, 2)])
+            if not fam.units and not isinstance(w.pipeline[0].frame, str):
+                check_target(ctx, f"invert/{fam.name}", (lambda *a, w=w: w.invert(*a)), fam.n_out, gen_world, 1e-9, problems,
+                             shapes=[(), (5,), (2, 1, 3)])
+                check_target(ctx, f"in_image/{fam.name}", (lambda *a, w=w: w.in_image(*a)), fam.n_out, gen_world, 0, problems,
+                             shapes=[(), (5,), (2, 3)])
+        # iterative inverse, incl. a NaN in the batch
+        f = families.imaging(rng, distortion=True, box=True)
+        w = f.w
 
-    calls = [0]
+        calls = [0]
 
-    def gen_world_it(n):
-        pts = [families.random_point(rng, f) for _ in range(n)]
-        calls[0] += 1
-        for j, p in enumerate(pts):       # some points just inside an edge of the box (closer than the error of the solver's starting value);
-            forced = (j == 0 and calls[0] % 2 == 0)                       # every second call has its first point there for certain
-            if forced or rng.random() < 0.35:
-                k = (calls[0] // 2) % 2 if forced else rng.randrange(2)
-                lo, hi = f.box[k]
-                eps = [0.02, 0.05, 0.1, 0.2, 0.4][(calls[0] // 4) % 5] if forced else rng.uniform(0.02, 0.6)
-                p[k] = (hi - eps) if ((calls[0] // 8) % 2 == 0 if forced else rng.random() < 0.5) else (lo + eps)
-        ra, dec = w(np.array([p[0] for p in pts]), np.array([p[1] for p in pts]))
-        ra, dec = np.atleast_1d(ra).astype(float), np.atleast_1d(dec).astype(float)
-        if n >= 3:
-            ra[1] = np.nan
-        return [ra, dec]
-    check_target(ctx, "numerical_inverse/imaging_dist", (lambda *a: w.numerical_inverse(*a)), 2, gen_world_it, 3e-5, problems,
-                 shapes=[(), (1,), (5,), (2, 3)])
-    # every iteration mode (the default is plain + divergence detection), with a tight solver tolerance so that an element that stopped
-    # early because of ANOTHER element of the batch (e.g. a NaN one) shows against its stand-alone solution
-    for ad_, dd_ in ((True, True), (True, False), (False, True), (False, False)):
-        check_target(ctx, f"numerical_inverse(adaptive={ad_},detect_divergence={dd_},tolerance=1e-9)/imaging_dist",
-                     (lambda *a, ad_=ad_, dd_=dd_: w.numerical_inverse(*a, adaptive=ad_, detect_divergence=dd_, quiet=True, tolerance=1e-9)), 2,
-                     gen_world_it, 1e-6, problems, shapes=[(), (5,), (2, 3)])
-    check_target(ctx, "invert(iterative)/imaging_dist", (lambda *a: w.invert(*a)), 2, gen_world_it, 3e-5, problems, shapes=[(), (6,), (2, 2)])
-    check_target(ctx, "in_image(iterative)/imaging_dist", (lambda *a: w.in_image(*a)), 2, gen_world_it, 0, problems, shapes=[(), (6,)])
+        def gen_world_it(n):
+            pts = [families.random_point(rng, f) for _ in range(n)]
+            calls[0] += 1
+            for j, p in enumerate(pts):       # some points just inside an edge of the box (closer than the error of the solver's starting value);
+                forced = (j == 0 and calls[0] % 2 == 0)                       # every second call has its first point there for certain
+                if forced or rng.random() < 0.35:
+                    k = (calls[0] // 2) % 2 if forced else rng.randrange(2)
+                    lo, hi = f.box[k]
+                    eps = [0.02, 0.05, 0.1, 0.2, 0.4][(calls[0] // 4) % 5] if forced else rng.uniform(0.02, 0.6)
+                    p[k] = (hi - eps) if ((calls[0] // 8) % 2 == 0 if forced else rng.random() < 0.5) else (lo + eps)
+            ra, dec = w(np.array([p[0] for p in pts]), np.array([p[1] for p in pts]))
+            ra, dec = np.atleast_1d(ra).astype(float), np.atleast_1d(dec).astype(float)
+            if n >= 3:
+                ra[1] = np.nan
+            return [ra, dec]
+        check_target(ctx, "numerical_inverse/imaging_dist", (lambda *a: w.numerical_inverse(*a)), 2, gen_world_it, 3e-5, problems,
+                     shapes=[(), (1,), (5,), (2, 3)])
+        # every iteration mode (the default is plain + divergence detection), with a tight solver tolerance so that an element that stopped
+        # early because of ANOTHER element of the batch (e.g. a NaN one) shows against its stand-alone solution
+        for ad_, dd_ in ((True, True), (True, False), (False, True), (False, False)):
+            check_target(ctx, f"numerical_inverse(adaptive={ad_},detect_divergence={dd_},tolerance=1e-9)/imaging_dist",
+                         (lambda *a, ad_=ad_, dd_=dd_: w.numerical_inverse(*a, adaptive=ad_, detect_divergence=dd_, quiet=True, tolerance=1e-9)), 2,
+                         gen_world_it, 1e-6, problems, shapes=[(), (5,), (2, 3)])
+        check_target(ctx, "invert(iterative)/imaging_dist", (lambda *a: w.invert(*a)), 2, gen_world_it, 3e-5, problems, shapes=[(), (6,), (2, 2)])
+        check_target(ctx, "in_image(iterative)/imaging_dist", (lambda *a: w.in_image(*a)), 2, gen_world_it, 0, problems, shapes=[(), (6,)])
     # a rotated (not sky-aligned) WCS: the adaptive iteration couples the points of a batch — known finding
     problems += rotated_probe(ctx)
     # broadcastable mix on the forward direction (known finding for separable transforms)
